@@ -82,7 +82,7 @@ class Printer:
         return "<c>"
 
 
-def mk_world(c, shape, ordered):
+def mk_world(c, shape, ordered, with_enum=True):
     """shape: list of rand sets, each (n_fields, n_hard, n_soft); returns (ri, bound_m, sets, fields, unconstrained)"""
     from vsc.model.rand_set import RandSet
     from vsc.model.rand_info import RandInfo
@@ -128,8 +128,8 @@ def mk_world(c, shape, ordered):
     be = VariableBoundScalarModel(ue)
     be.domain.range_l = [[1, 1], [5, 5], [7, 7]]
     bound_m[ue] = be
-    ri = RandInfo(sets, [uf, un, ue])
-    return ri, bound_m, sets, writes, (uf, un, ue)
+    ri = RandInfo(sets, [uf, un, ue] if with_enum else [uf, un])
+    return ri, bound_m, sets, writes, (uf, un, ue if with_enum else None)
 
 
 def shapes(tier, seed):
@@ -165,7 +165,8 @@ def c_protocol(c, shape, debug, ordered):
     import vsc.model.randomizer as R
     import vsc.model.solvegroup_swizzler_partsel as SW
     from vsc.model.solve_failure import SolveFailure
-    ri, bound_m, sets, writes, (uf, un, ue) = mk_world(c, shape, ordered)
+    with_enum = (sum(nf + nh + ns for nf, nh, ns in shape) <= 2) or ordered
+    ri, bound_m, sets, writes, (uf, un, ue) = mk_world(c, shape, ordered, with_enum)
     oracle = Oracle(c)
     solvers = []
 
@@ -283,9 +284,10 @@ def c_protocol(c, shape, debug, ordered):
     uw = [v for (f, used, v, old) in writes if f is uf]
     c.check("an unconstrained random field is drawn exactly once, inside its type domain",
             And(len(uw) == 1, *([lift(uw[0]) >= -8, lift(uw[0]) <= 7] if uw else [])))
-    ew = [v for (f, used, v, old) in writes if f is ue]
-    c.check("an unconstrained field with a multi-range (enumerator) domain is drawn from that domain",
-            And(len(ew) == 1, *([Or(lift(ew[0]) == 1, lift(ew[0]) == 5, lift(ew[0]) == 7)] if ew else [])))
+    if ue is not None:
+        ew = [v for (f, used, v, old) in writes if f is ue]
+        c.check("an unconstrained field with a multi-range (enumerator) domain is drawn from that domain",
+                And(len(ew) == 1, *([Or(lift(ew[0]) == 1, lift(ew[0]) == 5, lift(ew[0]) == 7)] if ew else [])))
     # ---- C09: draw routing
     c.check("no use of the global random module inside the solve path", trip == [], info=repr(trip))
     c.ghost["draws"] = [(lo if not isinstance(lo, SymInt) else "sym", hi if not isinstance(hi, SymInt) else "sym")
